@@ -365,4 +365,11 @@ example : validateInstructions demoTx 1 1 D_START_LIQ D_END_LIQ = .ok () := by r
 example : Started demoTx 1 7 := ⟨_, rfl, rfl, rfl, Or.inl ⟨rfl, by rfl⟩⟩
 example : (run demoTx (fun i => decide (i < 1000)) (fun _ => ⟨false, false, false, false⟩)).isOk = true := by decide
 
+/-! ### the numbers of the property text (constants regenerated from the real crates on every run) -/
+
+/-- "the configured maximum premium (at least 5 %)", "accounts whose assets were worth under five dollars" -/
+theorem premium_and_closeout_numbers :
+    (Mfi.Gen.LIQUIDATION_BONUS_FEE_MINIMUM * 20 - Mfi.Fx.ONE).natAbs < 20 ∧
+    Mfi.Gen.LIQUIDATION_CLOSEOUT_DOLLAR_THRESHOLD = 5 * Mfi.Fx.ONE := by decide
+
 end Mfi.Props.C10
